@@ -11,8 +11,18 @@
 (*   * level-0 hashes "see through" pruned branches, so Hash_0(X') = Hash(X).    *)
 (* Nothing here is taken from the Go code.                                        *)
 (*                                                                               *)
-(* DOMAIN.  The tree that is proven (table T, root row R) consists of ordinary   *)
-(* cells of level 0 (LevelZero).                                                 *)
+(* DOMAIN.  The source of a prover (table T, root row R) is a level-0 tree of     *)
+(* ordinary cells, or a PARTIAL VIEW of one: the tree under an earlier proof,     *)
+(* i.e. ordinary cells and pruned-branch cells 01 01 || hash || depth of level 1   *)
+(* with well-formed masks (SourceOK).  Everything below is stated with the        *)
+(* LEVEL-0 hash / depth of Cells!InfoTable (h[1], d[1]): a pruned branch answers   *)
+(* at level 0 with the hash / depth it stores, an ordinary cell above it "sees     *)
+(* through" it, so the level-0 hash / depth of any node of a partial view are      *)
+(* those of the ORIGINAL sub-tree it stands for.  Hence, for a partial source:     *)
+(* the Merkle-proof cell stores the hash / depth of the original root; pruning a   *)
+(* position that already holds a pruned branch yields that same pruned branch;      *)
+(* pruning above one stores the original sub-tree's hash / depth; a pruned branch   *)
+(* that is kept stays a level-1 pruned branch and every ancestor's mask has bit 0.  *)
 (*                                                                               *)
 (* PROVER AND SESSIONS.  A prover is the immutable pair (T, R).  Every Cursor()    *)
 (* (and every ProveKeyInHashmap) opens a session whose prune set is EMPTY; only   *)
@@ -45,6 +55,10 @@ PathPrefix(p, q) == Len(p) <= Len(q) /\ SubSeq(q, 1, Len(p)) = p
 RECURSIVE NodeAt(_, _, _)
 NodeAt(T, j, p) == IF Len(p) = 0 THEN j ELSE NodeAt(T, T[j].r[p[1]], Tail(p))
 LevelZero(T) == \A i \in 1..Len(T) : T[i].x = Ordinary /\ T[i].m = 0
+\* a prover source: level-0 tree or partial view of one (pruned branches of level 1 with one stored hash / depth)
+IsPrunedL1(c) == c.x = Pruned /\ c.m = 1 /\ Len(c.b) = 288 /\ Len(c.r) = 0
+SourceOK(T)  == (\A i \in 1..Len(T) : (T[i].x = Ordinary /\ T[i].m \in {0, 1}) \/ IsPrunedL1(T[i])) /\ WellFormed(T)
+Partial(T)   == \E i \in 1..Len(T) : T[i].x = Pruned
 \* the paths of PS that are not below another path of PS (the ones that become pruned-branch cells)
 Minimal(PS) == {p \in PS : ~\E q \in PS : q # p /\ PathPrefix(q, p)}
 
@@ -68,6 +82,8 @@ ProofI(T, I, R, PS) ==                                   \* I = InfoTable(T)
   IN << [b |-> BytesToBits(<<3>> \o I[R].h[1] \o U16(I[R].d[1])), x |-> MerkleProof, m |-> body[1].m \div 2, r |-> <<2>>] >>
         \o Shift(body, 1)
 Proof(T, R, PS) == ProofI(T, InfoTable(T), R, PS)
+\* the tree under a proof table (row 1 = Merkle-proof cell, row 2 = its child) as a table of its own: a partial view
+Body(PT) == Shift(SubSeq(PT, 2, Len(PT)), 0 - 1)
 
 \* ------------------------------------------------ (a) the cursor state machine
 \* state: [T, root, path, ps].  A cursor value is a position; every cursor obtained from one MerkleProver.Cursor()
@@ -105,6 +121,9 @@ PrunedPaths(P, i, T, j, path) ==
   IF P[i].x = Pruned THEN {path}
   ELSE IF Len(P[i].r) # Len(T[j].r) THEN {}
   ELSE UNION {PrunedPaths(P, P[i].r[k], T, T[j].r[k], Append(path, k)) : k \in 1..Len(P[i].r)}
+\* S (root RS) is a view of the tree T0 (root R0, infos I0): the same cells along equal positions, and every pruned branch
+\* of S stores the level-0 hash / depth of the node of T0 at its position
+ViewOf(S, RS, T0, I0, R0) == \A q \in Pairs(S, RS, T0, R0) : PairOK(S, I0, T0, q[1], q[2])
 
 \* dictionary lookup by walking edge labels along the key; total on any table
 \*   [ok |-> FALSE, why] (not a readable dictionary along this key: pruned / exotic cell, bad label, bad fork)
@@ -131,14 +150,22 @@ PathOf(lk) == [f \in 1..Len(lk.forks) |-> lk.forks[f][2]]
 \* k = <<>> : no dictionary clause (cursor walks).  Otherwise (n, k): the value of key k must be readable from the proof
 \* and be the value the original holds.
 PV(r, psp, bad) == [reason |-> r, psp |-> psp, bad |-> bad]
+\* what must hold before hashes can be computed at all
+ShapeOK(P) == Topological(P) /\ \A i \in 1..Len(P) : BasicOK(P[i])
+\* every cell carries the level mask its type, data and children demand (Cells!DerivedMask)
+MasksOK(P) == LET W == WithMasks(P) IN \A i \in 1..Len(P) : W[i].m = P[i].m
 ProofVerdict(B, T, IT, R, n, k) ==
   LET pr == Parse(B) IN
   IF ~pr.ok THEN PV("parse", {}, <<>>)
   ELSE IF Len(pr.roots) # 1 THEN PV("roots", {}, <<>>)
   ELSE
   LET P == pr.T  rt == pr.roots[1] IN
-  IF ~WellFormed(P) THEN PV("well-formed", {}, <<>>)        \* incl.: Merkle-proof cell stores its child's level-0 hash / depth, masks
-  ELSE IF P[rt].x # MerkleProof THEN PV("root-type", {}, <<>>)
+  IF ~ShapeOK(P) THEN PV("well-formed", {}, <<>>)
+  ELSE IF ~(P[rt].x = MerkleProof /\ Len(P[rt].r) = 1 /\ Len(P[rt].b) = 280) THEN PV("root-type", {}, <<>>)
+  \* the specific clauses come first so that a finding is named by what is wrong; Cells!WellFormed (which contains them:
+  \* masks, pruned-branch layout, Merkle-proof cell = level-0 hash / depth of its child) closes the list
+  ELSE IF ~MasksOK(P) THEN PV("level-mask", {}, <<>>)
+  ELSE IF \E i \in 1..Len(P) : ~HashableCell(P[i]) THEN PV("well-formed", {}, <<>>)
   ELSE
   LET IP   == InfoTable(P)
       ch   == P[rt].r[1]
@@ -148,10 +175,11 @@ ProofVerdict(B, T, IT, R, n, k) ==
       psp  == PrunedPaths(P, ch, T, R, <<>>)
   IN IF SubSeq(data, 2, 33) # IT[R].h[1] THEN PV("stored-hash", {}, <<>>)
      ELSE IF <<data[34], data[35]>> # U16(IT[R].d[1]) THEN PV("stored-depth", {}, <<>>)
-     ELSE IF IP[ch].h[1] # IT[R].h[1] THEN PV("level0-hash", {}, <<>>)
-     ELSE IF IP[ch].d[1] # IT[R].d[1] THEN PV("level0-depth", {}, <<>>)
      ELSE IF \E q \in prs : ~PairOK(P, IT, T, q[1], q[2]) THEN PV("pruned-cell", {}, <<>>)
      ELSE IF \E i \in reach : P[i].x = Pruned /\ ~\E q \in prs : q[1] = i THEN PV("pruned-cell", {}, <<>>)
+     ELSE IF IP[ch].h[1] # IT[R].h[1] THEN PV("level0-hash", {}, <<>>)
+     ELSE IF IP[ch].d[1] # IT[R].d[1] THEN PV("level0-depth", {}, <<>>)
+     ELSE IF ~WellFormed(P) THEN PV("well-formed", {}, <<>>)
      \* cross-check with (b): the bag is exactly the proof of the prune set it exhibits
      ELSE IF ReprHash(IP[rt]) # ReprHash(InfoTable(ProofI(T, IT, R, psp))[1]) THEN PV("not-the-proof-of-its-prune-set", psp, <<>>)
      ELSE IF Len(k) = 0 THEN PV("", psp, <<>>)
@@ -163,7 +191,7 @@ ProofVerdict(B, T, IT, R, n, k) ==
         ELSE IF ~(o.ok /\ o.found) THEN PV("value:original-has-none", psp, <<>>)
         ELSE IF a.v.b # o.v.b THEN PV("value:bits", psp, <<>>)
         ELSE IF Len(a.v.r) # Len(o.v.r) THEN PV("value:refs", psp, <<>>)
-        \* the value's own sub-trees must be revealed completely (no pruned branch inside: highest-level hash = original hash)
+        \* the value's own sub-trees must be revealed as completely as the source has them (highest-level hash = source's)
         ELSE IF \E j \in 1..Len(a.v.r) : ReprHash(IP[a.v.r[j]]) # ReprHash(IT[o.v.r[j]]) THEN PV("value:refs", psp, <<>>)
         ELSE PV("", psp, <<>>)
 ProofReason(B, T, IT, R, n, k) == ProofVerdict(B, T, IT, R, n, k).reason
@@ -179,11 +207,13 @@ WalkVerdict(B, T, IT, R, PS) ==
   IF base.reason # "" THEN [reason |-> base.reason, sem |-> "none", hash |-> <<>>, psp |-> base.psp, extra |-> {}]
   ELSE LET pr  == Parse(B)
            PSp == base.psp
-           extra == {q \in PSp : ~\E p \in PS : ReprHash(IT[NodeAt(T, R, q)]) = ReprHash(IT[NodeAt(T, R, p)])}
+           \* pruned branches the source itself has at that position need no Prune
+           New == {q \in PSp : T[NodeAt(T, R, q)].x # Pruned}
+           extra == {q \in New : ~\E p \in PS : ReprHash(IT[NodeAt(T, R, q)]) = ReprHash(IT[NodeAt(T, R, p)])}
        IN [reason |-> IF \E p \in PS : ~\E q \in PSp : PathPrefix(q, p) THEN "asked-but-not-pruned"
                       ELSE IF extra # {} THEN "pruned-but-not-asked"
                       ELSE "",
-           sem |-> IF PSp = Minimal(PS) THEN "occurrence" ELSE "cell-value",
+           sem |-> IF New = {p \in Minimal(PS) : T[NodeAt(T, R, p)].x # Pruned} THEN "occurrence" ELSE "cell-value",
            hash |-> ReprHash(InfoTable(pr.T)[pr.roots[1]]), psp |-> PSp, extra |-> extra]
 WalkReason(B, T, IT, R, PS) == WalkVerdict(B, T, IT, R, PS).reason
 
@@ -198,6 +228,13 @@ SessState(T, R, sess, c) == [T |-> T, root |-> R, path |-> sess[c].path, ps |-> 
 SessApply(T, R, sess, c, o) == LET s2 == Apply(SessState(T, R, sess, c), o) IN [sess EXCEPT ![c] = [path |-> s2.path, ps |-> s2.ps]]
 SessEnabled(T, R, sess, c, o) == c \in DOMAIN sess /\ OpEnabled(SessState(T, R, sess, c), o)
 SessProof(T, R, sess, c) == Proof(T, R, sess[c].ps)
+
+\* The prune set of a proof that keeps exactly the paths of the keys K1 of a dictionary: the siblings along those paths
+\* that lead to no key of K1 (a "proof for some keys"; the tree under it is a partial dictionary)
+KeepKeysPruneSet(T, R, n, K1) ==
+  LET KP == {PathOf(Lookup(T, R, n, k)) : k \in K1}
+      sibs == UNION {{Append(SubSeq(q, 1, f - 1), 3 - q[f]) : f \in 1..Len(q)} : q \in KP}
+  IN {a \in sibs : ~\E q \in KP : PathPrefix(a, q)}
 
 \* Input classes of a (dictionary, key) pair, used to name findings:
 \*   "twin"     a fork on the path of k has two children that are the same cell (value)
